@@ -1,9 +1,9 @@
 SPECIFICATION Spec
 CONSTANTS
-  Clients <- MC1Clients
-  Reqs <- MC1Reqs
+  Clients <- MC2Clients
+  Reqs <- MC2Reqs
   Bg = "bg"
-  Handoff = FALSE
+  Handoff = TRUE
 INVARIANT RecvMutex
 INVARIANT CondMutex
 INVARIANT DispatchedOnce
@@ -12,5 +12,5 @@ INVARIANT Completed
 INVARIANT NoLostWakeup
 INVARIANT NoHang
 INVARIANT WillBeWoken
-INVARIANT OnlyKnownStalls
+INVARIANT NoStall
 PROPERTY Termination
